@@ -1,0 +1,15 @@
+//go:build verif
+// +build verif
+
+package clusters
+
+import (
+	gatewayflowcontrol "github.com/kubewharf/kubegateway/pkg/flowcontrols"
+)
+
+// VerifLimiter returns the flow-control limiter of the cluster, so that the
+// verification harness can read what it recorded per schema
+// (AllFlowControls: Strategy, LocalFlowControl().Config()). Verification-only hook.
+func (c *ClusterInfo) VerifLimiter() gatewayflowcontrol.UpstreamLimiter {
+	return c.flowcontrol
+}
